@@ -19,7 +19,7 @@ static std::string op_brief(const OpResult& o)
 static Plan gen_c06(uint64_t seed, int64_t index, bool thorough)
 {
     Rng rng(hash_seed(seed, "C06", index));
-    std::vector<std::string> pk = keys_for({ "G1", "G2", "G3", "G4", "G5", "G6", "G7", "G8", "G9", "G10", "G11", "G12", "G13", "G14", "G15", "T1" });
+    std::vector<std::string> pk = keys_for({ "G1", "G2", "G3", "G4", "G5", "G6", "G7", "G8", "G9", "G10", "G11", "G12", "G13", "G14", "G15", "G16", "T1" });
     std::vector<std::string> rk = regex_keys();
     PlanOp op;
     std::string mode;
@@ -88,7 +88,7 @@ static Plan gen_c06(uint64_t seed, int64_t index, bool thorough)
     {
         // fixed-capacity stacks (cstring_buffer): openers that each push a state plus an empty-rule reduction
         mode = "fixed_stack_pressure";
-        static const std::vector<std::pair<const char*, const char*>> openers = { { "G3", "x" }, { "G5", "{" }, { "G7", "{" }, { "G11", "(" }, { "G3", "zx" } };
+        static const std::vector<std::pair<const char*, const char*>> openers = { { "G3", "x" }, { "G5", "{" }, { "G7", "{" }, { "G11", "(" }, { "G3", "zx" }, { "G16", "x" }, { "G16", "xy" } };
         const auto& oc = openers[size_t(rng.below(openers.size()))];
         std::vector<std::string> fk = keys_for({ oc.first });
         key = rng.pick(fk);
@@ -227,6 +227,22 @@ static Plan gen_c09(uint64_t seed, int64_t index, bool thorough)
     else if (k < 65) { mode = "token_faults"; add_token_faults(op, rng, rng.range(1, 3), *m); }
     else if (k < 90) { mode = "byte_faults"; add_byte_faults(op, rng, rng.range(1, 3), m); }
     else { mode = "mixed_faults"; add_token_faults(op, rng, 1, *m); add_byte_faults(op, rng, rng.range(1, 2), m); }
+    if (rng.chance(1, 150))
+    {
+        // the language does not bound the length of a term: one lexeme around and beyond 64 KiB
+        static const std::vector<int> lens = { 65535, 65536, 65537, 70000, 131072 };
+        OpShape s2 = sh; s2.budget = 8; s2.buffers = { BUF_SIM, BUF_STRING, BUF_VIEW };
+        for (int tries = 0; tries < 6; ++tries)
+        {
+            PlanOp o2 = make_sentence_op(rng, key, s2);
+            if (stretch_one_lexeme(o2, rng, *m, size_t(rng.pick(lens))))
+            {
+                op = o2; mode = "long_lexeme";
+                if (rng.chance(1, 2)) add_token_faults(op, rng, 1, *m);
+                break;
+            }
+        }
+    }
     return single_op_plan("C09", seed, index, mode, op);
 }
 
@@ -331,7 +347,7 @@ static std::vector<Violation> case_c09(const Plan& p, CaseCtx& cx)
 static Plan gen_c10(uint64_t seed, int64_t index, bool thorough)
 {
     Rng rng(hash_seed(seed, "C10", index));
-    std::vector<std::string> pk = keys_for({ "G1", "G2", "G4", "G4", "G5", "G5", "G7", "G9", "G9", "G10", "G10", "G11", "G12", "G13", "G14", "G15", "T1" }, false);
+    std::vector<std::string> pk = keys_for({ "G1", "G2", "G4", "G4", "G5", "G5", "G7", "G9", "G9", "G10", "G10", "G11", "G12", "G13", "G14", "G15", "G16", "T1" }, false);
     std::string key = rng.pick(pk);
     const ref::Model* m = model_for(grammar_of(key));
     OpShape sh;
@@ -462,7 +478,7 @@ static std::vector<Violation> case_c10(const Plan& p, CaseCtx& cx)
 static Plan gen_c08(uint64_t seed, int64_t index, bool thorough)
 {
     Rng rng(hash_seed(seed, "C08", index));
-    std::vector<std::string> pk = keys_for({ "G1", "G1", "G6", "G7", "G7", "G11", "G11", "G13", "G13", "G14", "G15", "T1" });
+    std::vector<std::string> pk = keys_for({ "G1", "G1", "G6", "G7", "G7", "G11", "G11", "G13", "G13", "G14", "G15", "G16", "T1" });
     std::string key = rng.pick(pk);
     const ref::Model* m = model_for(grammar_of(key));
     OpShape sh;
@@ -564,6 +580,15 @@ static std::vector<Violation> case_c08(const Plan& p, CaseCtx& cx)
     if (o.out.exc == 5)
     {
         vs.push_back(make_violation("C08", "value_stack_out_of_step", "std::bad_variant_access escaped from the call: a reduction found a value of the wrong kind where its argument should be (values and states discarded out of step); " + op_brief(o), p));
+        return vs;
+    }
+    if (o.out.exc == 6)
+    {
+        ref::RefResult rx = ref_for(o);
+        if (capacity_exception_unjustified(o, rx))
+            vs.push_back(make_violation("C08", "exception_instead_of_recovery", "the call threw '" + o.out.exc_what + "' although the deepest stack of the documented run (" + std::to_string(rx.max_depth) +
+                " entries) fits the fixed capacity; " + op_brief(o), p));
+        else if (cx.st) cx.st->add("unjudged.fixed_capacity_exceeded");
         return vs;
     }
     if (o.out.exc != 0) { if (cx.st) cx.st->add("unjudged.exception"); return vs; }
